@@ -135,6 +135,24 @@ func (a *absCtx) rewrite(n *sx) *sx {
 				cur = &sx{isL: true, list: []*sx{{atom: "abs.cat"}, a.rewrite(args[i]), cur}}
 			}
 			return cur
+		case "str.contains", "str.prefixof", "str.suffixof":
+			// both arguments literal: fold (keeps constant import paths etc. decidable)
+			if len(n.list) == 3 && !n.list[1].isL && !n.list[2].isL && strings.HasPrefix(n.list[1].atom, "\"") && strings.HasPrefix(n.list[2].atom, "\"") {
+				a1, a2 := smtLitValue(n.list[1].atom), smtLitValue(n.list[2].atom)
+				var r bool
+				switch n.list[0].atom {
+				case "str.contains":
+					r = strings.Contains(a1, a2)
+				case "str.prefixof":
+					r = strings.HasPrefix(a2, a1)
+				default:
+					r = strings.HasSuffix(a2, a1)
+				}
+				if r {
+					return &sx{atom: "true"}
+				}
+				return &sx{atom: "false"}
+			}
 		case "str.in_re":
 			var sb strings.Builder
 			n.list[2].write(&sb)
@@ -239,4 +257,29 @@ func abstractStrings(script string) string {
 		}
 	}
 	return sb.String()
+}
+
+// smtLitValue decodes an SMT-LIB string literal (one character per byte).
+func smtLitValue(lit string) string {
+	body := lit[1 : len(lit)-1]
+	var out []byte
+	for i := 0; i < len(body); i++ {
+		if body[i] == '"' && i+1 < len(body) && body[i+1] == '"' {
+			out = append(out, '"')
+			i++
+			continue
+		}
+		if body[i] == '\\' && i+2 < len(body) && body[i+1] == 'u' && body[i+2] == '{' {
+			j := strings.IndexByte(body[i:], '}')
+			if j > 0 {
+				var v int
+				fmt.Sscanf(body[i+3:i+j], "%x", &v)
+				out = append(out, byte(v))
+				i += j
+				continue
+			}
+		}
+		out = append(out, body[i])
+	}
+	return string(out)
 }
